@@ -285,24 +285,31 @@ def run(prop, tier, seed, verdict):
                 verdict.violation({"clause": "runner-crash"}, {"ops": full_ops, "got": gl[:5]}, False)
             continue
         # ---- replay the script for the independent expectation
-        sounding, ext, sounding_cp = set(), set(), set()
+        # which keys are held, and at which pitch each of them sounds: the pitch is what the device announced (Note On) when
+        # the key went down.  A press that announced nothing (out of range, suppressed by the collision mode, not a note key)
+        # leaves that key's pitch unknown.  Held keys — not the receiver's view — are what "sounding from the keyboard" means
+        # for the LEDs: with collision mode off, two keys on one pitch and one of them released, the other key is still held.
+        sounding, ext, held = set(), set(), {}
+        unknown_held = False
+        act_codes = set(m["act_keys"].values())
         st = None
         for op, got in zip(["led.start"] + body, gl):
             t = op.split()
             if t[0] == "key":
                 toks_ = got.split()
+                code, val = int(t[2]), int(t[3])
                 if any(len(x) == 6 and int(x[0:2], 16) >> 4 == 11 and int(x[2:4], 16) == 123 for x in toks_):
                     ext.clear()              # the panic action clears the MIDI-input highlight; held keys stay held
                     toks_ = []
-                for tok in toks_:
-                    if len(tok) == 6:
-                        a, b, c = int(tok[0:2], 16), int(tok[2:4], 16), int(tok[4:6], 16)
-                        # per (channel, pitch): the same pitch can sound on two channels (channel offsets) and stop on one
-                        if a >> 4 == 9 and c > 0:
-                            sounding_cp.add((a & 15, b))
-                        elif a >> 4 == 8 or (a >> 4 == 9 and c == 0):
-                            sounding_cp.discard((a & 15, b))
-                sounding = {n for _, n in sounding_cp}
+                if code not in act_codes:
+                    if val == 1:
+                        on = [(int(x[0:2], 16) & 15, int(x[2:4], 16)) for x in toks_
+                              if len(x) == 6 and int(x[0:2], 16) >> 4 == 9 and int(x[4:6], 16) > 0]
+                        held[code] = on[0] if on else None
+                    elif val == 0:
+                        held.pop(code, None)
+                sounding = {v[1] for v in held.values() if v}
+                unknown_held = any(v is None for v in held.values())
             elif t[0] == "midiin":
                 a, b, c = int(t[1][0:2], 16), int(t[1][2:4], 16), int(t[1][4:6], 16)
                 if a >> 4 == 9 and c > 0:
@@ -321,8 +328,10 @@ def run(prop, tier, seed, verdict):
                     e = expected_led(m, name, st, sounding, ext, m["shifted"])
                     if e is None:
                         continue
-                    leds_checked += 1
                     want, tol, rule = e
+                    if rule != "active" and unknown_held and near(colr, rgb(m["cols"][4]), 0) and not near(colr, want, tol):
+                        continue             # a held key of unknown pitch may be the one lighting this LED: nothing claimed
+                    leds_checked += 1
                     counts[rule] = counts.get(rule, 0) + 1
                     if not near(colr, want, tol):
                         verdict.violation({"clause": rule},
